@@ -51,6 +51,8 @@ func c18Peer(c *ev.Ctx, r *rand.Rand, caseN int) (string, map[string]interface{}
 	var requested, lastSuspendAnswerFalse int // lastSuspendAnswerFalse: count of false answers since the previous request
 	lastAnswer := true
 	doneAnswered := false
+	deliveredWhileSuspended := map[int]bool{} // chunk ids handed over while the harness had suspension switched on
+	sweptSuspendedChunk := false              // IsProcessed was asked about such a chunk and Suspend() was not consulted since
 	bad := ""
 	var events []string
 	refills, suspWithCapacity := 0, false
@@ -64,6 +66,9 @@ func c18Peer(c *ev.Ctx, r *rand.Rand, caseN int) (string, map[string]interface{}
 		IsProcessed: func(id interface{}) bool {
 			mu.Lock()
 			defer mu.Unlock()
+			if deliveredWhileSuspended[id.(int)] && suspended {
+				sweptSuspendedChunk = true
+			}
 			if processed[id.(int)] {
 				answeredTrue[id.(int)] = true
 				return true
@@ -80,6 +85,10 @@ func c18Peer(c *ev.Ctx, r *rand.Rand, caseN int) (string, map[string]interface{}
 			if (lastSuspendAnswerFalse == 0 || lastAnswer) && bad == "" {
 				bad = "request-while-suspended"
 			}
+			if sweptSuspendedChunk && suspended && bad == "" {
+				// the routine run that swept a chunk delivered during the suspension went on to request without asking Suspend()
+				bad = "request-while-suspended"
+			}
 			lastSuspendAnswerFalse = 0
 			requested += int(maxChunks)
 			if requested > len(answeredTrue)+par && bad == "" {
@@ -94,6 +103,7 @@ func c18Peer(c *ev.Ctx, r *rand.Rand, caseN int) (string, map[string]interface{}
 			mu.Lock()
 			defer mu.Unlock()
 			lastAnswer = suspended
+			sweptSuspendedChunk = false
 			if !suspended {
 				lastSuspendAnswerFalse++
 			} else if requested < len(answeredTrue)+par {
@@ -123,6 +133,14 @@ func c18Peer(c *ev.Ctx, r *rand.Rand, caseN int) (string, map[string]interface{}
 			for k := r.Intn(3); k >= 0 && delivered < req; k-- {
 				delivered++
 				unprocessed = append(unprocessed, delivered)
+				mu.Lock()
+				if suspended {
+					deliveredWhileSuspended[delivered] = true
+				}
+				if r.Intn(2) == 0 {
+					processed[delivered] = true // already processed when it arrives: the sweep frees its slot at once
+				}
+				mu.Unlock()
 				_ = l.NotifyChunkReceived(delivered)
 			}
 		case 2, 3:
@@ -235,6 +253,9 @@ func c18Base(c *ev.Ctx, r *rand.Rand, caseN int) (string, map[string]interface{}
 				out = append(out, p)
 			}
 			sort.Strings(out)
+			if caseN%2 == 1 {
+				time.Sleep(time.Duration(50+caseN%150) * time.Microsecond) // a slow selection widens the window between the check and the start
+			}
 			return out
 		},
 		ShouldTerminateSession: func() bool {
